@@ -139,6 +139,7 @@ def main(argv):
                         got = inv(obj)
                     except Exception as e:
                         got = e
+                    n_altered_call = S.n_altered
                     n += 1
                     case = {"class": cls, "method": name, "plan": repr(plan), "key_present": present, "got": canon(got)[:80], "miss": canon(miss)[:80]}
                     ctx.case((cls, name, repr(plan), present), sample=case if n in (30, 900) else None)
@@ -179,7 +180,8 @@ def main(argv):
                     elif canon(got) != canon(miss):
                         # not a failure: the plan may not have fired and the real value came back
                         hit = False
-                        if present:
+                        altered = plan.get("mutation") in ("value-missing-cas", "value-extra-token") and n_altered_call > 0
+                        if present and not altered:
                             S2 = Scripted(rng)
                             o2 = build(cls, S2, classes)
                             S2.begin_call(0, {})
